@@ -12,6 +12,7 @@ import (
 	sdk "github.com/cosmos/cosmos-sdk/types"
 
 	lendtypes "github.com/comdex-official/comdex/x/lend/types"
+	liqV2types "github.com/comdex-official/comdex/x/liquidationsV2/types"
 
 	"verif/ev"
 	"verif/mon"
@@ -45,6 +46,7 @@ type c08Snap struct {
 	stats        map[[2]uint64]lendtypes.PoolAssetLBMapping
 	outToLenders map[uint64]*big.Int
 	locked       map[uint64]bool // borrow id -> a generation-2 locked vault (seizure record) exists for it
+	lockedV1     map[uint64]bool // borrow id -> a generation-1 locked vault (partial liquidation in progress) exists for it
 }
 
 // handedOver: the borrow is under liquidation, i.e. flagged AND a seizure
@@ -52,6 +54,14 @@ type c08Snap struct {
 // that is only flagged (half-applied seizure: flag written, hand-over failed)
 // still has its collateral in the pool and is counted as an open borrow.
 func (s *c08Snap) handedOver(b lendtypes.BorrowAsset) bool { return b.IsLiquidated && s.locked[b.ID] }
+
+// underLiquidation: flagged and a seizure record of either generation exists. A generation-1 seizure (liquidate
+// message of x/liquidation) hands over only the part of the collateral that is to be sold and reduces the borrow's
+// recorded collateral by it: what the record still shows is pledged collateral that has NOT been handed over, but the
+// borrow is under liquidation until its auction has ended and the position has been re-opened or removed.
+func (s *c08Snap) underLiquidation(b lendtypes.BorrowAsset) bool {
+	return b.IsLiquidated && (s.locked[b.ID] || s.lockedV1[b.ID])
+}
 
 type c08Env struct {
 	t       *testing.T
@@ -69,8 +79,9 @@ type c08Env struct {
 	lastDiff map[string]string
 	pairs    map[uint64]lendtypes.Extended_Pair
 	sampled  map[string]bool
-	force    string // "inter-pool" / "inter-pool-2": the next txStep opens an inter-pool borrow close to its LTV bound (second form: through the second transit asset); "same-pool": a plain same-pool borrow close to its bound
+	force    string // "inter-pool" / "inter-pool-2": the next txStep opens an inter-pool borrow close to its LTV bound (second form: through the second transit asset); "same-pool": a plain same-pool borrow close to its bound; "emode": a borrow on the e-mode pair close to its bound
 	panicked bool
+	outage   map[uint64]int // asset id -> steps until its price feed is re-activated (C08's own runs only)
 }
 
 func (e *c08Env) log(s string) {
@@ -111,10 +122,15 @@ func (e *c08Env) priceString() string {
 func (e *c08Env) snap() *c08Snap {
 	ctx := e.c.Ctx()
 	k := e.c.App.LendKeeper
-	s := &c08Snap{lends: map[uint64]lendtypes.LendAsset{}, borrows: map[uint64]lendtypes.BorrowAsset{}, stats: map[[2]uint64]lendtypes.PoolAssetLBMapping{}, outToLenders: map[uint64]*big.Int{}, locked: map[uint64]bool{}}
+	s := &c08Snap{lends: map[uint64]lendtypes.LendAsset{}, borrows: map[uint64]lendtypes.BorrowAsset{}, stats: map[[2]uint64]lendtypes.PoolAssetLBMapping{}, outToLenders: map[uint64]*big.Int{}, locked: map[uint64]bool{}, lockedV1: map[uint64]bool{}}
 	for _, lv := range e.c.App.NewliqKeeper.GetLockedVaults(ctx) {
 		if lv.InitiatorType == "lend" {
 			s.locked[lv.OriginalVaultId] = true
+		}
+	}
+	for _, lv := range e.c.App.LiquidationKeeper.GetLockedVaults(ctx) {
+		if lv.GetBorrowMetaData() != nil {
+			s.lockedV1[lv.OriginalVaultId] = true
 		}
 	}
 	for _, l := range k.GetAllLend(ctx) {
@@ -185,7 +201,7 @@ func (e *c08Env) checkBooks(s *c08Snap, after string, causes map[[2]uint64]strin
 		}
 		pledged[b.LendingID].Add(pledged[b.LendingID], c08bi(b.AmountIn.Amount))
 		p, found := e.pair(b.PairID)
-		if !found {
+		if !found || s.underLiquidation(b) {
 			continue
 		}
 		k := key{p.AssetOutPoolID, p.AssetOut}
@@ -206,7 +222,9 @@ func (e *c08Env) checkBooks(s *c08Snap, after string, causes map[[2]uint64]strin
 	for k := range s.stats {
 		keys = append(keys, k)
 	}
-	sort.Slice(keys, func(i, j int) bool { return keys[i][0] < keys[j][0] || (keys[i][0] == keys[j][0] && keys[i][1] < keys[j][1]) })
+	sort.Slice(keys, func(i, j int) bool {
+		return keys[i][0] < keys[j][0] || (keys[i][0] == keys[j][0] && keys[i][1] < keys[j][1])
+	})
 	for _, pk := range keys {
 		st := s.stats[pk]
 		k := key{pk[0], pk[1]}
@@ -748,6 +766,11 @@ func (e *c08Env) txStep() {
 			if forced != "" {
 				assetID = pool.Main
 			}
+			if forced == "emode" {
+				if ep, ok := e.pair(e.u.EModePair); ok {
+					poolID, assetID = ep.AssetOutPoolID, ep.AssetIn
+				}
+			}
 			if forced == "inter-pool-2" {
 				// collateral large enough that the pool's first transit asset cannot carry the bridge
 				if par, found := k.GetAssetRatesParams(e.c.Ctx(), assetID); found {
@@ -762,7 +785,7 @@ func (e *c08Env) txStep() {
 		if forced != "" {
 			var ip []uint64
 			for _, id := range pairIDs {
-				if p, ok := e.pair(id); ok && ((p.IsInterPool && forced != "same-pool") || (forced == "same-pool" && !p.IsInterPool && !p.IsEModeEnabled)) {
+				if p, ok := e.pair(id); ok && ((p.IsInterPool && forced != "same-pool" && forced != "emode") || (forced == "same-pool" && !p.IsInterPool && !p.IsEModeEnabled) || (forced == "emode" && p.IsEModeEnabled)) {
 					ip = append(ip, id)
 				}
 			}
@@ -1179,7 +1202,7 @@ func (e *c08Env) blockStep() {
 }
 
 func TestC08(t *testing.T) {
-	rec := ev.New("C08", "exploration", "seeded random histories of real signed lend-module transactions (all 12 user messages) by 5 users over 2 pools sharing their transit assets; amounts by class (tiny/typical/boundary solved from state/+-1/whole/more than available); blocks with gaps 1s..2y, price moves, price crashes with generation-2 liquidation in part of the runs; 3 universe variants (round prices, odd prices + 1e8 decimals, steep rates). distinct = (message, amount class, outcome, variant) and (LTV path, class, sign of debt-bound, interest>0) tuples")
+	rec := ev.New("C08", "exploration", "seeded random histories of real signed lend-module transactions (all 12 user messages) by 5 users over 2 pools sharing their transit assets; amounts by class (tiny/typical/boundary solved from state/+-1/whole/more than available); blocks with gaps 1s..2y, price moves, price crashes with generation-2 liquidation in part of the runs, there also bidders (tiny / partial / exact / oversized market bids) settling the auctions of seized borrows, an app reserve fund that is large / small / absent, and a final phase with the generation-1 liquidate-borrow message and bids on its lend auctions; fund messages, rate-model updates and price-feed outages in the middle of every history; 3 universe variants (round prices, odd prices + 1e8 decimals, steep rates). distinct = (message, amount class, outcome, variant) and (LTV path, class, sign of debt-bound, interest>0) tuples")
 	defer finish(t, rec)
 	rnd := rng("C08")
 	runs := ev.Pick(4, 14)
@@ -1207,6 +1230,14 @@ func TestC08(t *testing.T) {
 	rec.Floor("withdraw_beyond_available_rejected", 10)
 	rec.Floor("close_lend_with_open_borrow_rejected", 10)
 	rec.Floor("borrows_seized_by_liquidation", 5)
+	rec.Floor("lend_auction_bids_ok", 20)
+	rec.Floor("lend_auctions_settled", 5)
+	rec.Floor("borrows_seized_by_gen1_message", 3)
+	rec.Floor("gen1_lend_auctions_closed", 2)
+	rec.Floor("rate_param_updates_mid_run", 10)
+	rec.Floor("ok_fund-module", 10)
+	rec.Floor("ok_fund-reserve", 5)
+	rec.Floor("steps_with_an_inactive_price", 50)
 	rec.Assume("oracle prices are the TWA records read through MarketKeeper.GetTwa; they are set by the harness between blocks and stay active (no band-oracle feed is installed)")
 	rec.Assume("applicable LTV: collateral asset's Ltv (ELtv for an e-mode pair); for an inter-pool borrow multiplied by the Ltv of the transit asset that was bridged; accrued interest is counted as floor(InterestAccumulated) after the accrual done by the transaction itself")
 	rec.Assume("rewards credited to a lend position inside a withdraw / close-lend transaction are read from the module's AllReserveStats.TotalAmountOutToLenders delta")
@@ -1275,12 +1306,44 @@ func c08Run(t *testing.T, rec *ev.Rec, rnd *rand.Rand, run, variant int, liqRun 
 	c := e.c
 	defer c.Close()
 	e.checkBooks(e.snap(), "setup", nil)
-	for i := 0; i < steps && !e.panicked; i++ {
-		if e.rnd.Intn(100) < 30 {
+	if liqRun {
+		// the app's reserve fund (auctions of seized borrows draw on it when the collateral does not cover the
+		// target): large, small or absent, so that "covers the shortage" and "cannot cover it" both occur
+		for _, id := range e.u.Order {
+			amt := sdk.NewInt(200_000_000_000)
+			switch (run + ev.ShardNo()) % 3 {
+			case 1:
+				amt = sdk.NewInt(50_000)
+			case 2:
+				continue
+			}
+			pre := e.snap()
+			res, _ := e.deliver(c.Accts[5], &liqV2types.MsgAppReserveFundsRequest{From: c.Accts[5].Addr.String(), AppId: e.u.App, AssetId: id, TokenQuantity: sdk.NewCoin(e.u.Assets[id].Denom, amt)})
+			e.finishTx(pre, "fund-app-reserve", "set-up", res, fmt.Sprintf("app reserve %s%s", amt, e.u.Assets[id].Denom))
+		}
+	}
+	main := steps
+	if liqRun {
+		main = steps * 85 / 100
+	}
+	for i := 0; i < main && !e.panicked; i++ {
+		e.tickOutages()
+		switch x := e.rnd.Intn(100); {
+		case x < 29:
 			e.blockStep()
-		} else {
+		case x < 32:
+			e.adminStep()
+		case x < 42 && liqRun:
+			if !e.bidStep() {
+				e.txStep()
+			}
+		default:
 			e.txStep()
 		}
+	}
+	e.endOutages()
+	if liqRun {
+		e.gen1Phase(steps - main)
 	}
 	rec.Count("runs", 1)
 	if liqRun {
